@@ -545,85 +545,102 @@ func auxListRule(c *Ctx, r *Report, rule string) {
 		r.Fail(rule, "anchor sendHandshake not found")
 	} else {
 		found := false
-		for _, l := range naturalLoops(fn) {
-			// the loop that ranges over s.localFW
-			ranges := false
-			for b := range l.body {
-				for _, in := range b.Instrs {
-					if ia, ok := in.(*ssa.IndexAddr); ok && strings.HasSuffix(pathOf(ia.X), ".localFW") {
-						if _, isPhiIdx := ia.Index.(*ssa.BinOp); isPhiIdx {
-							ranges = true
-						}
-						if _, isPhi := ia.Index.(*ssa.Phi); isPhi {
-							ranges = true
+		anchor := fn
+		// the loop may stand in sendHandshake or in a same-package function below it (h4rFrames,
+		// ip_h4r3.go); then every call on the way must be made unconditionally
+		for _, fr := range h4rFrames(anchor, h4rMaxDepth) {
+			fn := fr.fn
+			for _, l := range naturalLoops(fn) {
+				// the loop that ranges over s.localFW
+				ranges := false
+				for b := range l.body {
+					for _, in := range b.Instrs {
+						if ia, ok := in.(*ssa.IndexAddr); ok && strings.HasSuffix(pathOf(ia.X), ".localFW") {
+							if len(fr.chain) > 0 && !h4rFieldOf(ia.X, fr.env, anchor.Params[0]) {
+								continue // the list of another session object than the one shaking hands
+							}
+							if _, isPhiIdx := ia.Index.(*ssa.BinOp); isPhiIdx {
+								ranges = true
+							}
+							if _, isPhi := ia.Index.(*ssa.Phi); isPhi {
+								ranges = true
+							}
 						}
 					}
 				}
-			}
-			if !ranges {
-				continue
-			}
-			found = true
-			o := r.Add(rule, fnName(fn), "loop over localFW", c.pos(l.header.Instrs[0].Pos()))
-			// (1) the loop is only left from its header
-			early := ""
-			for b := range l.body {
-				if b == l.header {
+				if !ranges {
 					continue
 				}
-				for _, s := range b.Succs {
-					if !l.body[s] {
-						if ret, isRet := s.Instrs[len(s.Instrs)-1].(*ssa.Return); isRet && isErrorExit(ret) {
-							continue
-						}
-						early = c.pos(b.Instrs[len(b.Instrs)-1].Pos())
-						if early == "-" || early == "" {
-							early = c.pos(b.Instrs[0].Pos())
-						}
+				found = true
+				o := r.Add(rule, fnName(anchor), "loop over localFW", c.pos(l.header.Instrs[0].Pos()))
+				conditional := ""
+				for _, site := range fr.chain {
+					if len(condsAt(site.Block())) > 0 || reachable(site.Block(), site.Block(), nil) {
+						conditional = c.pos(site.Pos())
 					}
 				}
-			}
-			// (2) every iteration writes something
-			writes := map[*ssa.BasicBlock]bool{}
-			for b := range l.body {
-				for _, in := range b.Instrs {
-					if ci, ok := in.(ssa.CallInstruction); ok && h4PlainWrite[callName(ci.Common())] {
-						writes[b] = true
-					}
-				}
-			}
-			silent := false
-			{
-				seen := map[*ssa.BasicBlock]bool{}
-				var stack []*ssa.BasicBlock
-				for _, s := range l.header.Succs {
-					if l.body[s] && s != l.header {
-						stack = append(stack, s)
-					}
-				}
-				for len(stack) > 0 {
-					b := stack[len(stack)-1]
-					stack = stack[:len(stack)-1]
-					if seen[b] || writes[b] {
+				// (1) the loop is only left from its header
+				early := ""
+				for b := range l.body {
+					if b == l.header {
 						continue
 					}
-					seen[b] = true
 					for _, s := range b.Succs {
-						if s == l.header {
-							silent = true
-						} else if l.body[s] {
+						if !l.body[s] {
+							if ret, isRet := s.Instrs[len(s.Instrs)-1].(*ssa.Return); isRet && isErrorExit(ret) {
+								continue
+							}
+							early = c.pos(b.Instrs[len(b.Instrs)-1].Pos())
+							if early == "-" || early == "" {
+								early = c.pos(b.Instrs[0].Pos())
+							}
+						}
+					}
+				}
+				// (2) every iteration writes something
+				writes := map[*ssa.BasicBlock]bool{}
+				for b := range l.body {
+					for _, in := range b.Instrs {
+						if ci, ok := in.(ssa.CallInstruction); ok && (h4PlainWrite[callName(ci.Common())] || h4rAlwaysWrites(ci)) {
+							writes[b] = true
+						}
+					}
+				}
+				silent := false
+				{
+					seen := map[*ssa.BasicBlock]bool{}
+					var stack []*ssa.BasicBlock
+					for _, s := range l.header.Succs {
+						if l.body[s] && s != l.header {
 							stack = append(stack, s)
 						}
 					}
+					for len(stack) > 0 {
+						b := stack[len(stack)-1]
+						stack = stack[:len(stack)-1]
+						if seen[b] || writes[b] {
+							continue
+						}
+						seen[b] = true
+						for _, s := range b.Succs {
+							if s == l.header {
+								silent = true
+							} else if l.body[s] {
+								stack = append(stack, s)
+							}
+						}
+					}
 				}
-			}
-			switch {
-			case early != "":
-				o.Bad("the loop over the local addresses can be left from inside its body (near %s), not only when the list is exhausted: after an auxiliary address whose password is known, the remaining addresses are missing from the ;FW line", early)
-			case silent:
-				o.Bad("an iteration of the loop over the local addresses can complete without writing anything: that address is missing from the ;FW line")
-			default:
-				o.OK("the loop ends only when the list is exhausted and every iteration writes the address or the address|response pair")
+				switch {
+				case conditional != "":
+					o.Bad("the function that writes the ;FW line is called under a condition or repeatedly (%s): the list of local addresses is not announced exactly once in every handshake", conditional)
+				case early != "":
+					o.Bad("the loop over the local addresses can be left from inside its body (near %s), not only when the list is exhausted: after an auxiliary address whose password is known, the remaining addresses are missing from the ;FW line", early)
+				case silent:
+					o.Bad("an iteration of the loop over the local addresses can complete without writing anything: that address is missing from the ;FW line")
+				default:
+					o.OK("the loop ends only when the list is exhausted and every iteration writes the address or the address|response pair")
+				}
 			}
 		}
 		if !found {
